@@ -95,6 +95,9 @@ def _check_new_line_after_assign(self, oToi):
             self.add_violation(oViolation)
     else:
         if self.new_line_after_assign == "no":
+            if any(isinstance(oToken, parser.comment) for oToken in lTokens[:iNextToken]):
+                # joining the lines would drop the comment that follows the assignment operator
+                return
             sSolution = "Move code after assignment to the same line as assignment."
             oViolation = _create_violation(oToi, iLine, 0, iNextToken, "new_line_after_assign", "remove", sSolution)
             self.add_violation(oViolation)
